@@ -231,14 +231,19 @@ def run_history(rng: Any, mon: str, max_depth: int, length: int, apply_budget: l
             k = int(rng.integers(len(inverses)))
             inv, at_creation = inverses[k]
             trace.append('REDUCE-INVERSE')
-            form = int(rng.integers(3))
+            form = int(rng.integers(4))
             inner = getattr(inv, 'operator', None)
-            if form == 2 and type(inner).__name__ == 'CompositionOperator':
+            if form == 3 and type(inv).__name__ == 'InverseOperator':
+                # arithmetic on an inverse (scaling, negation, sums) must keep the inverse object and its configuration
+                red = gen.pick(rng, [lambda: 2.0 * inv, lambda: inv * 0.5, lambda: inv / 4, lambda: -inv, lambda: tiny_operator() - inv,
+                                     lambda: (3 * inv).reduce()])()
+                LOG.count('C19.reduce', 'arithmetic-on-inverse')
+            elif form == 2 and type(inner).__name__ == 'CompositionOperator':
                 # the inverse of a composite next to one of the composite's own factor OBJECTS (either side)
                 red = (inv @ inner.operands[0]).reduce() if rng.integers(2) else (inner.operands[-1] @ inv).reduce()
                 LOG.count('C19.reduce', 'next-to-own-factor')
             else:
-                red = (inv @ tiny_operator()).reduce() if form else inv.reduce()
+                red = (inv @ tiny_operator()).reduce() if form in (1, 2) else inv.reduce()
             found = []
             from .. import dense as _dense
             _dense.walk(red, lambda o: found.append(o) if type(o).__name__ == 'InverseOperator' else None)
